@@ -110,33 +110,38 @@ def c08_shape(report, cfg):
 def c08_clone_reset(report, cfg):
     f = facts.load(cfg)
     for t, fam, bb in hashers(f):
-        ikey = "%s clone/reset@%s" % (facts.abbrev(t), cfg)
+        # the buffer position is the one selector (compared / indexed with); everything else is symbolic
+        for p in (0, 3, bb - 1):
+            ikey = "%s clone/reset pos=%d@%s" % (facts.abbrev(t), p, cfg)
 
-        def go():
-            bv.reset()
-            it = Interp(f, MODELS, hooks=hooks_for(fam, t))
-            cl = find(f, r"^<%s as core::clone::Clone>::clone$" % re.escape(t))
-            rs = find(f, r"^<%s as digest::Reset>::reset$" % re.escape(t))
-            df = find(f, r"^<%s as core::default::Default>::default$" % re.escape(t))
-            v = sym_hasher(it, t, 3)
-            cell = it.new_cell(v, "hasher")
-            c = it.call_instance(cl, [Ptr(cell, ())])
-            if it.to_bits(c, t) != it.to_bits(v, t):
-                report.violated("R8.2", ikey + ":clone", "%s::clone does not copy the state bit for bit" % facts.abbrev(t))
-                return
-            if it.to_bits(cell.v, t) != it.to_bits(v, t):
-                report.violated("R8.2", ikey + ":clone", "%s::clone modifies the original" % facts.abbrev(t))
-                return
-            it.call_instance(rs, [Ptr(cell, ())])
-            d = it.call_instance(df, [])
-            if it.panics or [a for a in it.asserts if a["kind"] != "overflow:Add"]:
-                report.violated("R8.2", ikey + ":assert", "operand-dependent assertion in reset/default")
-                return
-            if it.to_bits(cell.v, t) != it.to_bits(d, t):
-                report.violated("R8.2", ikey + ":reset", "%s::reset leaves a state different from Default::default() (some field survives the reset)" % facts.abbrev(t))
-                return
-            report.ok("R8.2", ikey, sample={"type": facts.abbrev(t)})
-        engine_guard(go, report, "R8.2", ikey)
+            def go():
+                bv.reset()
+                it = Interp(f, MODELS, hooks=hooks_for(fam, t))
+                cl = find(f, r"^<%s as core::clone::Clone>::clone$" % re.escape(t))
+                rs = find(f, r"^<%s as digest::Reset>::reset$" % re.escape(t))
+                df = find(f, r"^<%s as core::default::Default>::default$" % re.escape(t))
+                v = sym_hasher(it, t, p)
+                cell = it.new_cell(v, "hasher")
+                c = it.call_instance(cl, [Ptr(cell, ())])
+                if it.to_bits(c, t) != it.to_bits(v, t):
+                    report.violated("R8.2", ikey + ":clone", "%s::clone does not copy the state bit for bit" % facts.abbrev(t))
+                    return
+                if it.to_bits(cell.v, t) != it.to_bits(v, t):
+                    report.violated("R8.2", ikey + ":clone", "%s::clone modifies the original" % facts.abbrev(t))
+                    return
+                it.call_instance(rs, [Ptr(cell, ())])
+                d = it.call_instance(df, [])
+                if it.panics or [a for a in it.asserts if a["kind"] != "overflow:Add"]:
+                    report.violated("R8.2", ikey + ":assert", "operand-dependent assertion in reset/default")
+                    return
+                got, exp = it.to_bits(cell.v, t), it.to_bits(d, t)
+                if got != exp:
+                    sup = sorted({n for n, _ in bv.support(got)} - {n for n, _ in bv.support(exp)})
+                    report.violated("R8.2", ikey + ":reset", "%s::reset from a state with %d buffered bytes leaves a state different from Default::default()%s"
+                                    % (facts.abbrev(t), p, " - it still depends on the previous state (%s)" % ", ".join(sup[:3]) if sup else ""))
+                    return
+                report.ok("R8.2", ikey, sample={"type": facts.abbrev(t), "pos": p} if p == 0 else None)
+            engine_guard(go, report, "R8.2", ikey)
 
 
 def c08_chunking(report, cfg, only=None):
